@@ -51,7 +51,7 @@ class StreamGen:
             'axiom': rng.choice([1, 2, 4]), 'pattern': rng.choice([1, 2]), 'inst': rng.choice([2, 4, 6]),
             'mp': rng.choice([2, 4, 6]), 'gen': rng.choice([0, 1, 3]), 'subst': rng.choice([0, 1, 3]),
             'save': rng.choice([1, 2]), 'load': rng.choice([1, 2]), 'pop': rng.choice([0, 1]),
-            'publish': rng.choice([0, 1, 2]), 'junk': rng.choice([0, 0, 1]),
+            'publish': rng.choice([0, 1, 2]), 'junk': rng.choice([0, 0, 1]), 'capture': rng.choice([0, 1, 2]), 'muprobe': rng.choice([0, 1, 2]),
         }
         self.p_bad = rng.choice([0.0, 0.05, 0.15])    # adversarial (inapplicable) choices
 
@@ -227,6 +227,45 @@ class StreamGen:
         self.source()
         self.put(bytes([OP['Substitution'], X]))
 
+    def op_capture_probe(self):
+        """Instantiate a pending substitution with a binder body, crossing each of the four capture
+        arms (esubst under exists / under mu, ssubst under mu / under exists) with plugs that are
+        captured, not captured, or a metavariable with / without the freshness declaration."""
+        rng, k = self.rng, self.k
+        x, X = rng.choice(k.evars), rng.choice(k.svars)
+        e_kind = rng.random() < 0.5
+        binder_e = rng.random() < 0.5
+        bv = rng.choice(k.evars) if binder_e else rng.choice(k.svars)
+        inner = rng.choice([T.evar(x), T.svar(X), T.app(T.evar(x), T.svar(X)), T.app(T.svar(X), T.evar(x)), T.imp(T.sym(0), T.evar(x)) if e_kind else T.app(T.sym(0), T.svar(X))])
+        body = T.ex(bv, inner) if binder_e else T.mu(bv, inner)
+        if not T.wf_deep(body):
+            body = T.ex(bv, inner) if binder_e else T.mu(bv, T.app(T.svar(bv), T.evar(x)))
+        plug = rng.choice([T.evar(bv) if binder_e else T.svar(bv), T.evar(x), T.svar(X), T.sym(0), T.mv(3), T.mv(3, ef=(bv,)) if binder_e else T.mv(3, sf=(bv,)),
+                           T.app(T.sym(0), T.evar(bv) if binder_e else T.svar(bv))])
+        pend = T.esub(T.mv(0), x, plug) if e_kind else T.ssub(T.mv(0), X, plug)
+        self.put_pattern(body)
+        self.put_pattern(pend)
+        self.put(bytes([OP['Instantiate'], 1, 0]))
+        if rng.random() < 0.5:
+            self.put(bytes([OP['Pop']]))
+
+    def op_mu_probe(self):
+        """mu X . body with bodies on both sides of the documented positivity judgement."""
+        rng, k = self.rng, self.k
+        X = rng.choice(k.svars)
+        Y = rng.choice(k.svars)
+        x = rng.choice(k.evars)
+        mvp = T.mv(0, pos=(X,)); mvn = T.mv(0, neg=(X,)); mvf = T.mv(0, sf=(X,)); mvu = T.mv(0)
+        plugs = [T.svar(X), T.neg(T.svar(X)), T.sym(0), T.evar(x), T.mv(1, pos=(X,)), T.mv(1, neg=(X,)), T.mv(1, sf=(X,))]
+        base = rng.choice([mvp, mvn, mvf, mvu])
+        cand = [base, T.esub(base, x, rng.choice(plugs)), T.ssub(base, Y, rng.choice(plugs)), T.ssub(T.mv(0, pos=(X, Y)), Y, rng.choice(plugs)),
+                T.ssub(T.mv(0, pos=(X,), neg=(Y,)), Y, rng.choice(plugs)), T.neg(base), T.imp(base, T.svar(X)), T.neg(T.neg(T.svar(X))), T.app(T.svar(X), base)]
+        body = rng.choice(cand)
+        self.put_pattern(body)
+        self.put(bytes([OP['Mu'], X]))
+        if rng.random() < 0.5 and not self.dead:
+            self.put(bytes([OP['Pop']]))
+
     def proof_ops(self):
         rng = self.rng
         names = list(self.w)
@@ -269,6 +308,10 @@ class StreamGen:
                     self.put(bytes([OP['Publish']]))
                 elif rng.random() < self.p_bad:
                     self.put(bytes([OP['Publish']]))
+            elif op == 'capture':
+                self.op_capture_probe()
+            elif op == 'muprobe':
+                self.op_mu_probe()
             elif op == 'junk':
                 self.put(bytes([rng.choice([0, 1, 16, 17, 18, 20, 23, 25, 31, 99, 136, 138, 255])]))
             if not self.dead and self.m.stack and self.m.stack[-1][0] == 'T':
